@@ -262,7 +262,8 @@ func (w *World) userStopCtx(ui, mode int) {
 		}
 	case err == nil:
 		// nil only after the engine has fully shut down
-		if w.shutdownCount == 0 {
+		if w.shutdownCount == 0 && w.p.Stop.Source != "boot" {
+			// (an engine that OnBoot shut down never started anything: no OnShutdown)
 			w.violate("C19", "stop-nil-early", "Stop returned nil but OnShutdown has not run")
 		}
 		for _, cs := range w.conns {
